@@ -9,7 +9,7 @@ CONSTANTS
   Groups <- NoGroups
   SampledGroups = {}
   Tolerant = FALSE
-INVARIANTS BarrierOrderInv WaitcntSoundInv EndAfterMemoryInv CountersExactInv CompletionOnceInv CompletionAfterLastInv NoHangInv ValuesInv PathInv BarrierOrder CountersExact EndAfterMemory CompletionOnce
+INVARIANTS BarrierOrderInv WaitcntSoundInv EndAfterMemoryInv CountersExactInv CompletionOnceInv CompletionAfterLastInv NoHangInv ValuesInv PathInv IssueInOrderInv MemInstEndInv BarrierOrder CountersExact EndAfterMemory CompletionOnce
 CONSTRAINT Mark
 POSTCONDITION Accepted
 CHECK_DEADLOCK FALSE
